@@ -138,16 +138,24 @@ CHECKS.update({
              "preprocessing values; corrupted garbler and corrupted evaluator; n=2 and n=3) is replayed on the real code; Mon_Adv "
              "computes with ClearEval the set of values explainable by SOME input of the corrupted party and requires every honest "
              "Ok output to lie in it, with one common explanation for all honest output parties; honest non-output parties return "
-             "no bits. Scenarios that omit or forge optional values are repeated, as they only show when a hidden bit is 1.",
+             "no bits. Scenarios that omit or forge optional values are repeated, as they only show when a hidden bit is 1. For the "
+             "online phase the invariant Integrity of the symbolic model Wrk17Online is checked exhaustively by TLC (MC_Online).",
         note=ADV_NOTE, technique=ADV_TECH),
     "C03": dict(
-        category="fault_enumeration", design_ref="DESIGN.md 4 C03",
-        text="Adversary.tla derives from the circuit every authenticated field of the online phase: mask-share bit and MAC per "
+        category="model_checking", design_ref="DESIGN.md 4 C03, 10.5",
+        text="Wrk17Online.tla models the online phase (input processing, garbling with the four authenticated rows, evaluation "
+             "with label recombination, output opening) over an ideal preprocessing with the 128-bit algebra kept symbolic "
+             "(values = sets of atoms, XOR = symmetric difference); MC_Online checks for small configurations (n=2 and 3, corrupted "
+             "garbler / evaluator, all inputs, all share bits consistent with the AND functionality, every single-field deviation) "
+             "HonestCorrect, TamperAborts (the victim returns the error the code names for the consuming check), LabelTamper and "
+             "Integrity; four negative controls (a check left out) must fail. Adversary.tla derives from the circuit every authenticated field of the online phase: mask-share bit and MAC per "
              "input register and recipient, per output register and output party; every input label; row ciphertext bits of every "
              "AND gate (all four rows); the share a garbler encrypts into a row (tap); the evaluator's revealed value and label per "
              "output register and recipient; equivocated masked inputs (n=3). One replay per field; Mon_Adv requires the consuming "
-             "honest party to return Err (a panic or Ok is a violation).",
-        note=ADV_NOTE, technique=ADV_TECH),
+             "honest party to return Err (a panic or Ok is a violation); the error class of every replay is compared with the "
+             "model's table (mismatch = drift).",
+        note=ADV_NOTE + " The symbolic model treats hashes/AEAD/MACs as ideal and covers the online phase only.",
+        technique="TLA+ symbolic protocol model (Wrk17Online) model-checked by TLC + " + ADV_TECH),
     "C04": dict(
         category="fault_enumeration", design_ref="DESIGN.md 4 C04",
         text="(a) Adversary.tla lists the values checked by each preprocessing verification step (coin-toss commitment/opening, "
